@@ -806,7 +806,11 @@ class SymReal:
     def __float__(self):
         if self.is_const:
             return float(self.const_value)
-        raise Unsupported("float() of a symbolic value")
+        # concolic fallback: the code under test needs a machine number (float(x), math.ceil(x), ...).  The value of x under the path's
+        # running model is PINNED (x == v joins the path condition) and execution goes on with it: everything found further down is a real
+        # behaviour of the code (and replays), but the other values of x are not explored - counted as cut_paths['float_pinned'], so an
+        # instance that pinned anything is not reported as exhaustive
+        return ctx().pin_float(self)
 
     def __int__(self):
         if self.is_const:
@@ -1386,6 +1390,32 @@ class PathCtx:
         if cond.is_const:
             return cond.value
         return bool(cond)
+
+    def pin_float(self, x):
+        self.n_branch += 1
+        i = self.pos
+        self.pos += 1
+        if i < len(self.prefix):
+            d = self.prefix[i]
+            if not (isinstance(d, tuple) and d[0] == "pin"):
+                raise RuntimeError("non-deterministic replay: expected pin, got %r" % (d,))
+            v = d[1]
+        else:
+            v = self.model_value(x)
+            if v is None:
+                r = self._check()
+                if r == z3.sat:
+                    self._model_from_solver()
+                    v = self.model_value(x)
+                if v is None:
+                    raise Unsupported("float() of a symbolic value (no model to pin it to)")
+            self.ex.stats["cut"]["float_pinned"] = self.ex.stats["cut"].get("float_pinned", 0) + 1
+            self.ex.exhausted = False
+        b = (x <= v) & (x >= v)
+        self.pc_terms.append(b)
+        self._add(b.z3())
+        self.decisions.append(("pin", v))
+        return float(v)
 
     def choose_int(self, x):
         """int(x) for symbolic x: enumerate feasible truncations as decisions"""
